@@ -80,7 +80,7 @@ MUTANTS = [
     ("c17-watchdog-closes-waiting-goroutine", "internal/pkg/midi/device/open_rgb.go", "\t\t\t\tif started != 0 && time.Since(time.Unix(0, started)) > time.Millisecond*500 {", "\t\t\t\tif started >= 0 {", ["C17"]),
     ("c01-repeat-filter-survives-mapping-switch", DEV, "\tfor identifier := range d.lastAnalogValue {", "\tfor identifier := range map[string]float64{} {", ["C01"]),
     ("c06-deadzone-at-center-on-signed-axes", EVS, "\tif analog.DeadzoneAtCenter && !canBeNegative {", "\tif analog.DeadzoneAtCenter {", ["C06", "C07", "C08"]),
-    ("c04-counters-int8", DEV, "\toctave   int // any number of steps: a pitch outside 0-127 is simply not played\n\tsemitone int\n", "\toctave   int8\n\tsemitone int8\n", ["C04"]),
+    ("c04-semitone-wraps-at-8-bits", DEV, "\td.semitone++\n", "\td.semitone = int(int8(d.semitone + 1))\n", ["C04"]),
     ("c08-tracker-by-code-only", EVS, "identifier := fmt.Sprintf(\"%s/%s/%d\", ie.Source.Name, ie.Source.DeviceInfo.Event(), ie.Event.Code)", "identifier := fmt.Sprintf(\"%d\", ie.Event.Code)", ["C08"]),
     ("c08-thresholds-swapped", EVS, "\t\tcase value > -0.49 && value < 0.49:\n\t\t\td.AnalogNoteOff(identifier, ie)", "\t\tcase value > -0.3 && value < 0.3:\n\t\t\td.AnalogNoteOff(identifier, ie)", ["C08"]),
     ("c08-noteoff-current-transposition", DEV, "\tnote, channel := noteAndChannel[0], noteAndChannel[1]\n\n\tevent := midi.NoteEvent(midi.NoteOff, channel, note, 0)",
